@@ -206,13 +206,21 @@ def op_list_length(rng, m):
     e = rng.choice(objs)
     n = len(e.all_descs())
     reps = [d for d, kind, ti, a in e.all_descs() if kind == "repeat"]
-    d = rng.choice(reps)
+    d = d_main = rng.choice(reps)
+    # side stream (the main stream is consumed exactly as before, so every other case keeps its input): the wrong-length list may sit on an
+    # END-GROUP descriptor of the object -- the rule speaks of the descriptors of the stochastic object, not of its repeat units
+    import zlib
+
+    side = random.Random(zlib.crc32(m.to_text().encode()))
+    endds = [x for x, kind, ti, a in e.all_descs() if kind == "end"]
+    if endds and side.random() < 0.4:
+        d = side.choice(endds)
     k = rng.choice([n - 1, n + 1, n + 3, max(2, n // 2)]) if n > 2 else n + 1
     if k < 2 or k == n:
         k = n + 1
     d.weight = [1.0] * k
     # another descriptor of the same object keeps / gets a list of the CORRECT length: every list must be checked, not one
-    others = [x for x in reps if x is not d]
+    others = [x for x in reps if x is not d_main]
     if others and rng.random() < 0.7:
         o = rng.choice(others)
         if o.transitions is None or len(o.transitions) != n:
